@@ -624,6 +624,7 @@ def resampleStepwise(xin, yin, xout, avg=True):
             continue
 
         # trim any partial right-side bins
+        rightFraction = 1.0
         if xout[i] < xin[min(end, len(xin) - 1)]:
             fraction = (xout[i] - xin[end - 1]) / (xin[end] - xin[end - 1])
             if fraction == 0:
@@ -633,6 +634,7 @@ def resampleStepwise(xin, yin, xout, avg=True):
                 length[-1] *= fraction
             else:
                 chunk[-1] *= fraction
+                rightFraction = fraction
 
         # trim any partial left-side bins
         if xout[i - 1] > xin[start - 1]:
@@ -642,6 +644,10 @@ def resampleStepwise(xin, yin, xout, avg=True):
                 length = length[1:]
             elif avg:
                 length[0] *= fraction
+            elif start == end:
+                # the output bin lies within one input bin, which both trims act on:
+                # its covered share is the two fractions minus one, not their product
+                chunk[0] *= (rightFraction + fraction - 1.0) / rightFraction
             else:
                 chunk[0] *= fraction
 
